@@ -497,3 +497,13 @@ Example alternate_key_examples :
   /\ rewrite_all u_current ex_fdb [("instrument", VStr "Cam"); ("detector", VInt 0)] [("detector", [("full_name", VStr "det1")])]
      = RWErr RWInconsistent.
 Proof. exact ex_altkey_p. Qed.
+
+(* ---- expandDataId(DataCoordinate, ...): "only documented failures" is FALSE (finding F-C13-expand-dc-keyerror): a
+        DataCoordinate without a value for a dimension requested through dimensions= gives subset's bare KeyError, where
+        the same request spelled with a dict gives DimensionNameError ---- *)
+Theorem expand_dc_errors_documented_refuted :
+  exists d e, standardize u_current None [("instrument", VStr "Cam")] [] [] = Ok d /\
+    expand_data_id_dc_x u_current ex_db [] (Some ["detector"]) d [] [] = Err e /\ documented e = false /\
+    expand_data_id_x u_current ex_db [] (Some ["detector"]) [("instrument", VStr "Cam")] [] [] = Err EDimensionName.
+Proof. exact expand_dc_keyerror_refuted_p. Qed.
+Print Assumptions expand_dc_errors_documented_refuted.
